@@ -7,18 +7,25 @@ package perunio
 
 // ByteSlice.Decode reads exactly len(*b) bytes with repeated Read calls (C13: no
 // panic for any reader behaviour; C16: full read independent of chunking).
+// rpos(r): bytes consumed from r so far; streamAt(r, i): i-th byte of the stream behind r. A successful decode consumed exactly
+// len(*b) bytes and the buffer holds exactly these stream bytes, however the reader chunked them (Read may return any
+// 1 <= n <= len(p) per call). The content clauses apply when the run models reader contents (streaming()).
 //@ func (*ByteSlice).Decode
 //@   requires r != nil
-//@   modifies (*b)[*]
+//@   modifies (*b)[*], ghost("rpos")
+//@   ensures result == nil ==> rpos(r) == old(rpos(r)) + len(*b)
+//@   ensures streaming() && result == nil ==> forall i int :: 0 <= i && i < len(*b) ==> (*b)[i] == streamAt(r, old(rpos(r)) + i)
 //@   loop 1
-//@     modifies (*b)[*]
-//@     invariant 0 <= n && n <= len(*b)
+//@     modifies (*b)[*], ghost("rpos")
+//@     invariant 0 <= n && n <= len(*b) && rpos(r) == old(rpos(r)) + n
+//@     invariant streaming() ==> forall i int :: 0 <= i && i < n ==> (*b)[i] == streamAt(r, old(rpos(r)) + i)
 
 // BigInt.Decode: length byte, then exactly that many bytes; lengths above MaxBigIntLength are rejected.
 // ghost("setbyteslen") is the byte length of the last big integer built with SetBytes.
 //@ func (*BigInt).Decode
 //@   requires reader != nil
-//@   modifies b.Int, val(b.Int), ghost("setbyteslen")
+//@   modifies b.Int, val(b.Int), ghost("setbyteslen"), ghost("rpos")
 //@   ensures result == nil ==> b.Int != nil && val(b.Int) >= 0 && ghost("setbyteslen") <= MaxBigIntLength
+//@   ensures streaming() && result == nil ==> rpos(reader) == old(rpos(reader)) + 1 + streamAt(reader, old(rpos(reader)))
 //@   ensures old(b.Int) != nil ==> b.Int == old(b.Int)
 //@   ensures old(b.Int) == nil && b.Int != nil ==> fresh(b.Int)
